@@ -10,6 +10,10 @@ From IT.gen Require Import GenInventory.
 Open Scope string_scope.
 
 Theorem SRC_inventory_node : inv_node = [
+  ("use core :: fmt", ["#[cfg(not(feature='std'))]"]);
+  ("use serde :: { Deserialize , Serialize }", ["#[cfg(feature='deser')]"]);
+  ("use std :: fmt", ["#[cfg(feature='std')]"]);
+  ("use crate :: { id :: NodeStamp , NodeId }", []);
   ("enum NodeData", ["PartialEq"; "Eq"; "Clone"; "Debug"; "feature='deser'=>Deserialize"; "feature='deser'=>Serialize"]);
   ("struct Node", ["PartialEq"; "Eq"; "Clone"; "Debug"; "feature='deser'=>Deserialize"; "feature='deser'=>Serialize"]);
   ("impl Node < T >", ["get := { if let NodeData :: Data (ref data) = self . data { data } else { unreachable ! ('Try to access a freed node') } }"; "get_mut := { if let NodeData :: Data (ref mut data) = self . data { data } else { unreachable ! ('Try to access a freed node') } }"; "new"; "reuse"; "parent := { self . parent }"; "first_child := { self . first_child }"; "last_child := { self . last_child }"; "previous_sibling := { self . previous_sibling }"; "next_sibling := { self . next_sibling }"; "is_removed"; "is_detached"]);
